@@ -160,37 +160,58 @@ def merge_and_product(chk, rid):
            'an injected rule loses its %s: the host query no longer carries '
            'the conditions / variables of the inlined predicate' % name, fi=inj)
   # DNF: conjunction = cartesian product (a + b), disjunction = concatenation
+  from sa import shapes
   cj = repo.func('parse.DisjunctiveNormalForm.ConjunctionOfDnfs')
-  loops = [x for x in walk_local(cj.node) if isinstance(x, ast.For)]
-  nested = [l for l in loops if any(isinstance(y, ast.For) for y in l.body)]
-  app = [c for c in walk_local(cj.node) if isinstance(c, ast.Call) and call_tail(c) == 'append'
-         and c.args and isinstance(c.args[0], ast.BinOp) and isinstance(c.args[0].op, ast.Add)]
-  rec = [c for c in walk_local(cj.node) if isinstance(c, ast.Call) and call_tail(c) == 'ConjunctionOfDnfs']
-  chk.ob(rid, bool(nested) and bool(app) and bool(rec), None,
+  ok = False
+  for pr_ in shapes.productions(cj.node):
+    if pr_.kind != 'append' or pr_.conds or len(pr_.gens) != 2:
+      continue
+    (t1, i1), (t2, i2) = pr_.gens
+    e = pr_.elt
+    rec = any(isinstance(c, ast.Call) and call_tail(c) == 'ConjunctionOfDnfs'
+              for it_ in (i1, i2) for c in ast.walk(it_))
+    if isinstance(e, ast.BinOp) and isinstance(e.op, ast.Add) and isinstance(t1, ast.Name) and \
+        isinstance(t2, ast.Name) and {dotted(e.left), dotted(e.right)} == {t1.id, t2.id} and \
+        t1.id != t2.id and rec:
+      ok = True
+  chk.ob(rid, ok, None,
          'conjunction of DNFs is the product of the alternatives (a + b for all pairs)',
          'the DNF of a conjunction is not the cartesian product of the DNFs of '
          'its conjuncts: alternatives are lost or duplicated', fi=cj)
   dj = repo.func('parse.DisjunctiveNormalForm.DisjunctsToDNF')
-  cat = [x for x in walk_local(dj.node) if isinstance(x, ast.AugAssign) and isinstance(x.op, ast.Add)] + \
-      [c for c in walk_local(dj.node) if isinstance(c, ast.Call) and call_tail(c) == 'extend']
-  inloop = [x for x in walk_local(dj.node) if isinstance(x, ast.For)]
-  whole = True
-  for l in inloop:
-    for y in ast.walk(l):
-      val = None
-      if isinstance(y, ast.AugAssign) and isinstance(y.op, ast.Add):
-        val = y.value
-      elif isinstance(y, ast.Call) and call_tail(y) == 'extend' and y.args:
-        val = y.args[0]
-      if val is not None and not (isinstance(val, ast.Name) and isinstance(l.target, ast.Name)
-                                  and val.id == l.target.id):
+  prods = shapes.productions(dj.node)
+  whole = bool(prods)
+  for pr_ in prods:
+    if pr_.conds:
+      whole = False
+    elif pr_.kind == 'extend':
+      # result += d / result.extend(d) for d in dnfs: d whole
+      if not (len(pr_.gens) == 1 and isinstance(pr_.elt, ast.Name) and
+              isinstance(pr_.gens[0][0], ast.Name) and pr_.elt.id == pr_.gens[0][0].id):
         whole = False
-  chk.ob(rid, bool(cat) and bool(inloop) and whole, None,
+    else:
+      # [c for d in dnfs for c in d]
+      if not (len(pr_.gens) == 2 and isinstance(pr_.elt, ast.Name) and
+              isinstance(pr_.gens[1][0], ast.Name) and pr_.elt.id == pr_.gens[1][0].id and
+              isinstance(pr_.gens[0][0], ast.Name) and dotted(pr_.gens[1][1]) == pr_.gens[0][0].id):
+        whole = False
+  chk.ob(rid, whole, None,
          'disjunction of DNFs is the concatenation of the alternatives',
          'alternatives of a disjunction are not all kept', fi=dj)
   r2r = repo.func('parse.DisjunctiveNormalForm.RuleToRules')
-  cp = [c for c in walk_local(r2r.node) if isinstance(c, ast.Call) and call_tail(c) == 'deepcopy']
-  chk.ob(rid, len(cp) >= 2, None, 'each alternative becomes its own deep-copied rule',
+
+  def deepcopies(fi_, depth=2):
+    n_ = 0
+    for c in walk_local(fi_.node):
+      if isinstance(c, ast.Call):
+        if call_tail(c) == 'deepcopy':
+          n_ += 1
+        elif depth and isinstance(c.func, ast.Attribute) and dotted(c.func.value) in ('cls', 'self'):
+          h = repo.lookup_method(fi_.module, fi_.cls, c.func.attr) if fi_.cls else None
+          if h is not None and h is not fi_:
+            n_ += deepcopies(h, depth - 1)
+    return n_
+  chk.ob(rid, deepcopies(r2r) >= 2, None, 'each alternative becomes its own deep-copied rule',
          'rules generated from one disjunction share sub-trees: later in-place '
          'rewrites of one alternative change the others', fi=r2r)
   # WHERE is a conjunction of all (non-ephemeral) constraints; FROM a comma list
@@ -379,6 +400,31 @@ def ast_kinds(chk, rid):
 _FMT = re.compile(r'^([A-Za-z_]*)%d$')
 
 
+_FMT2 = re.compile(r'^([A-Za-z_]*)\{(0|)(:d)?\}$')
+
+
+def word_number(x):
+  """(word, operand) when x formats `<word><number>` in one of the usual
+  spellings: 'w%d' % v, f'w{v}', 'w{}'.format(v), 'w' + str(v)."""
+  if isinstance(x, ast.BinOp) and isinstance(x.op, ast.Mod) and const_str(x.left) is not None \
+      and _FMT.match(const_str(x.left)):
+    right = x.right
+    if isinstance(right, ast.Tuple) and len(right.elts) == 1:
+      right = right.elts[0]
+    return _FMT.match(const_str(x.left)).group(1), right
+  if isinstance(x, ast.JoinedStr) and len(x.values) == 2 and const_str(x.values[0]) is not None \
+      and isinstance(x.values[1], ast.FormattedValue) and re.match(r'^[A-Za-z_]*$', const_str(x.values[0])):
+    return const_str(x.values[0]), x.values[1].value
+  if isinstance(x, ast.Call) and call_tail(x) == 'format' and isinstance(x.func, ast.Attribute) and \
+      const_str(x.func.value) is not None and _FMT2.match(const_str(x.func.value)) and len(x.args) == 1:
+    return _FMT2.match(const_str(x.func.value)).group(1), x.args[0]
+  if isinstance(x, ast.BinOp) and isinstance(x.op, ast.Add) and const_str(x.left) is not None and \
+      re.match(r'^[A-Za-z_]+$', const_str(x.left)) and isinstance(x.right, ast.Call) and \
+      call_tail(x.right) == 'str' and len(x.right.args) == 1:
+    return const_str(x.left), x.right.args[0]
+  return None
+
+
 def positional_name_sites(repo):
   """Sites `'<word>%d' % v` where v is known to be an int field: v is tested
   with isinstance(v, int/str) in the same function, or v is an enumerate
@@ -397,13 +443,13 @@ def positional_name_sites(repo):
           if isinstance(x.target.elts[0], ast.Name):
             enum_idx.add(x.target.elts[0].id)
       for x in walk_local(fi.node):
-        if (isinstance(x, ast.BinOp) and isinstance(x.op, ast.Mod) and
-            const_str(x.left) is not None and _FMT.match(const_str(x.left))):
-          operand = norm(x.right)
+        wn = word_number(x)
+        if wn is not None:
+          operand = norm(wn[1])
           if operand in tested:
-            sites.append((fi, x, _FMT.match(const_str(x.left)).group(1)))
+            sites.append((fi, x, wn[0]))
           elif operand in enum_idx and fi.name == 'ParseRecordInternals':
-            sites.append((fi, x, _FMT.match(const_str(x.left)).group(1)))
+            sites.append((fi, x, wn[0]))
   return sites
 
 
